@@ -121,6 +121,8 @@ def gen_table(rng, n_enums, big=False):
         return spec
     if "status" in fields:
         spec["types"] = {"status": rng.randrange(n_enums)}
+    if "level" in fields and rng.random() < 0.08:
+        spec["dec_col"] = True      # the 'level' column has the application's long-lived field type (decimals setting)
     if len(recs) >= 8 and rng.random() < 0.25:
         # which records are visible depends on the break lines: a break-by column, limits that hide records,
         # the other columns take their widths from the visible records
@@ -596,6 +598,9 @@ def generate(rng, tier):
             if a["conf"] == "global" and not a["no_color"] and not a["palette"] and rng.random() < 0.3:
                 a["how"] = "dunder"
             ops.append(a)
+        elif r < 0.7025:
+            # the preferences dialog changes a setting of the application's long-lived field type object
+            ops.append({"op": "app_setting", "decimals": rng.choice([0, 1, 2, 3, 5])})
         elif r < 0.705:
             # the application changes its environment (for the child processes it starts: a pager, git): no
             # rendering may depend on it
@@ -677,6 +682,22 @@ def generate(rng, tier):
                 {"op": "conf_global", "slot": 0},
                 {"op": "render", "obj": 0, "conf": "global", "no_color": False, "palette": pal, "rec": 0,
                  "how": "str", "late": False}]
+    elif r_tail < 0.19 and live_conf:
+        # the application's long-lived field type object: a table is shown, the preferences dialog changes the
+        # number of decimals, a new table over the same data is shown
+        objs.append({"kind": "table", "fields": ["id", "name", "level"], "dec_col": True, "footer": "",
+                     "records": [[1, "a", 3.14159], [2, "bb", rng.choice([2.5, 1234.56789, 0.001])], [3, "c", None]]})
+        conf = rng.choice(sorted(live_conf))
+        j = len(objs) - 1
+        first, second = rng.sample([0, 1, 2, 3, 5], 2)
+        ops += [{"op": "app_setting", "decimals": first},
+                {"op": "obj_new", "slot": 0, "spec": j},
+                {"op": "render", "obj": 0, "conf": conf, "no_color": rng.random() < 0.3, "palette": None, "rec": 0,
+                 "how": "str", "late": False},
+                {"op": "app_setting", "decimals": second},
+                {"op": "obj_new", "slot": 0, "spec": j},
+                {"op": "render", "obj": 0, "conf": conf, "no_color": rng.random() < 0.3, "palette": None, "rec": 0,
+                 "how": rng.choice(["str", "lines"]), "late": False}]
     return {"enums": enums, "inits": inits, "objs": objs, "ops": ops,
             "id_policy": rng.choice(["always", "always", "coin", "never"])}
 
@@ -779,6 +800,7 @@ class World:
         self.inits = trace["inits"]
         self.specs = list(trace["objs"])    # grows: a re-formatted table gets the description of its fresh equal
         self.enums = {}
+        self.decimals = 2
         self.confs = {}        # slot -> ConfModel
         self.objs = {}         # slot -> (Built, spec index)
         self.tasks = {}
@@ -838,6 +860,8 @@ class World:
     # -- reference
     def reference(self, spec_idx, cm_spec, mode, no_color=None, how_ref="str"):
         spec = self.specs[spec_idx]
+        if spec.get("dec_col"):
+            spec = dict(spec, decimals_now=self.decimals)
         m = {"via": mode["via"], "no_color": mode["no_color"] if no_color is None else no_color,
              "palette": mode.get("palette"), "rec": mode.get("rec", 0), "how_ref": how_ref}
         enums = {}
@@ -1095,6 +1119,17 @@ def _do_op(w, trace, op, n, k, log, color):
         w.stats[k] += 1
         if w.obj_confs_used.get(op["obj"]):
             w.stats["tbl_rendered_then_changed"] += 1
+    elif k == "app_setting":
+        rw.ro.APP_DECIMALS.decimals = op["decimals"]
+        w.decimals = op["decimals"]
+        # renderings in flight were started under the old setting: what they show from now on is not defined
+        for cm in list(w.confs.values()) + [w.global_cm]:
+            cm.version += 1
+        # tables that were printed keep the column widths of their first print (by design): the application makes
+        # new tables after the change
+        for slot in [sl for sl, (b, j) in w.objs.items() if w.specs[j].get("dec_col")]:
+            del w.objs[slot]
+        w.stats["app_settings_changed"] = w.stats.get("app_settings_changed", 0) + 1
     elif k == "env":
         import os
         if op.get("value") is None:
